@@ -1,6 +1,8 @@
 package updog
 
 import (
+	"sync"
+
 	"go.etcd.io/bbolt"
 )
 
@@ -11,6 +13,7 @@ import (
 
 func init() {
 	verifHarnesses["HarnessC05Writers"] = HarnessC05Writers
+	verifHarnesses["HarnessC05Parallel"] = HarnessC05Parallel
 }
 
 type verifRow struct {
@@ -254,3 +257,59 @@ type verifDBWriter struct {
 }
 
 func (w verifDBWriter) Flush() error { return w.IndexWriter.WriteToBoltDatabase(w.db) }
+
+// HarnessC05Parallel: two independent writers (separate objects, separate files), each used
+// by its own goroutine, add rows and flush at the same time. Independent objects share
+// nothing the caller can see, so there must be no data race between them (happens-before
+// analysis over all accesses, confirmed natively by the race detector) and each output must be
+// the index of its own rows.
+func HarnessC05Parallel() {
+	kinds := [2]int{verifChoice("writer0", 2), verifChoice("writer1", 2)} // 0 in-memory, 1 big
+	rows := [2][]verifRow{{{kind: 2}, {kind: 3}}, {{kind: 3}, {kind: 1}, {kind: 2}}}
+	outs := [2]string{verifTempPath("c05p0.updog"), verifTempPath("c05p1.updog")}
+	var ws [2]verifWriter
+	var closers [2]func()
+	for g := 0; g < 2; g++ {
+		if kinds[g] == 1 {
+			bw, closeDBs := verifBigWriter(outs[g], verifTempPath([]string{"c05p0.tmp", "c05p1.tmp"}[g]))
+			ws[g], closers[g] = bw, closeDBs
+		} else {
+			ws[g], closers[g] = NewIndexWriter(outs[g]), func() {}
+		}
+	}
+	var wg sync.WaitGroup
+	var failed [2]bool
+	verifPreemptions(verifTier())
+	verifSchedule(true)
+	verifLockset(true)
+	for g := 0; g < 2; g++ {
+		wg.Add(1)
+		go func(g int) {
+			defer wg.Done()
+			for i, r := range rows[g] {
+				id, err := ws[g].AddRow(r.values(i))
+				if err != nil || id != uint32(i) {
+					failed[g] = true
+				}
+			}
+			if ws[g].Flush() != nil {
+				failed[g] = true
+			}
+		}(g)
+	}
+	wg.Wait()
+	verifLockset(false)
+	verifSchedule(false)
+	verifRaceFree("C05: two independent writers used by two goroutines share state")
+	for g := 0; g < 2; g++ {
+		closers[g]()
+		verifAssert(!failed[g], "C05: AddRow/Flush of a writer failed while another, independent writer was in use")
+		idx, err := OpenIndex(outs[g])
+		verifAssert(err == nil, "C05: the file flushed next to another writer cannot be opened")
+		if err == nil {
+			verifCheckIndex(idx, rows[g], "C05 (writer used next to another one)")
+			idx.Close()
+		}
+	}
+	verifReach("end")
+}
